@@ -23,7 +23,7 @@ import (
 	staking "github.com/oasisprotocol/oasis-core/go/staking/api"
 )
 
-var strictMax = false
+var strictMax = true
 
 // ---- running a case on the implementation -------------------------------------------------------
 
@@ -79,7 +79,7 @@ func runImpl(ops []string) (lines []string, panicked string) {
 		if f[0] == "epoch" && app {
 			// a new epoch section: the world is described afresh, the application state lives on
 			nw := newWorld()
-			nw.p, nw.entropy = w.p, w.entropy
+			nw.p, nw.entropy, nw.reach = w.p, w.entropy, w.reach
 			w = nw
 		}
 		if w.apply(f) {
@@ -99,6 +99,22 @@ func runImpl(ops []string) (lines []string, panicked string) {
 				// BeginBlock failed: the chain halts here
 				halted = true
 			}
+		case "change":
+			opt := func(x string) *int {
+				if x == "n" {
+					return nil
+				}
+				v := pi(x)
+				return &v
+			}
+			var dist *uint8
+			if f[3] != "n" {
+				d := uint8(pu(f[3]))
+				dist = &d
+			}
+			acc := e.changeParams(w, opt(f[1]), opt(f[2]), dist)
+			lines = append(lines, fmt.Sprintf("change %s %s %s %s", f[1], f[2], f[3], b01(acc)))
+			dirty = true
 		case "hvalidators":
 			emitState()
 			lines = append(lines, "hvalidators "+e.hValidators(w))
@@ -256,6 +272,8 @@ func signature_(detail string) string {
 		return "model-error"
 	case strings.Contains(detail, "SPECFAIL") && strings.Contains(detail, "MaxValidators="):
 		return "spec-max-validators"
+	case strings.Contains(detail, "SPECFAIL") && strings.Contains(detail, "MinValidators="):
+		return "spec-min-validators"
 	case strings.Contains(detail, "SPECFAIL"):
 		return cls("spec")
 	case strings.Contains(detail, "DIVERGE"):
@@ -698,7 +716,19 @@ func (g *gen) genAppCase(epochs int) []string {
 		prm := ""
 		if g.r.Chance(1, 4) {
 			prm = g.genParams(true)
-			g.res.Count("app:params-changed")
+			g.res.Count("app:params-injected")
+		}
+		if g.r.Chance(1, 3) {
+			// a governance proposal through the real changeParameters, incl. zero and negative limits
+			o := func(xs ...int) string {
+				x := xs[g.r.Intn(len(xs))]
+				if x == -99 {
+					return "n"
+				}
+				return fmt.Sprint(x)
+			}
+			ops = append(ops, fmt.Sprintf("change %s %s %s", o(-99, -99, -1, 0, 1, 1, 2), o(-99, -1, 0, 0, 1, 2, 3, 5, 100), o(-99, -99, 0, 1, 2)))
+			g.res.Count("app:change-parameters-proposal")
 		}
 		ops = append(ops, gw.ops(g, prm, true)...)
 		ops = append(ops, "elect")
@@ -727,6 +757,19 @@ func countOutcome(res *hlib.Result, lines []string) (nontrivial bool) {
 	for _, l := range lines {
 		f := strings.Fields(l)
 		switch f[0] {
+		case "change":
+			if f[4] == "1" {
+				res.Count("change:accepted")
+			} else {
+				res.Count("change:rejected")
+				if f[1] == "0" || f[2] == "0" || strings.HasPrefix(f[1], "-") || strings.HasPrefix(f[2], "-") {
+					res.Count("change:rejected-nonpositive-limit")
+				}
+			}
+		case "reach":
+			if f[1] == "0" {
+				res.Count("params:unreachable-injected(spec limits not judged)")
+			}
 		case "params":
 			vrf = ""
 			if f[6] == "1" {
@@ -781,7 +824,7 @@ func countOutcome(res *hlib.Result, lines []string) (nontrivial bool) {
 }
 
 func removable(op string) bool {
-	for _, p := range []string{"node ", "acct ", "rt ", "thr ", "hcommittee", "hdedup", "hsort", "hdiff", "hpower", "hvalidators"} {
+	for _, p := range []string{"node ", "acct ", "rt ", "thr ", "change ", "hcommittee", "hdedup", "hsort", "hdiff", "hpower", "hvalidators"} {
 		if strings.HasPrefix(op, p) {
 			return true
 		}
@@ -827,12 +870,12 @@ func main() {
 	replay := flag.String("replay", "", "replay file (one op per line)")
 	corpus := flag.String("corpus", "", "corpus dir, run first")
 	verbose := flag.Bool("v", false, "with -replay: print the lines sent to the model and its answers")
-	strict := flag.Bool("strict-max", false, "spec predicate demands count <= MaxValidators also when MaxValidators <= 0")
+	strict := flag.Bool("strict-max", true, "spec predicate demands count <= MaxValidators (false: max(MaxValidators,1), the bound of the election function itself)")
 	flag.Parse()
 	strictMax = *strict
 
 	res := hlib.NewResult("electdrv", *seed)
-	res.Rule = "two kinds of generated cases: (helper) electValidators / electCommittee / dedupEntityNodesTrivial / stakingAddressMapToSliceByStake / diffValidators / VotingPowerFromStake through the verif exports on arbitrary node lists (any order, duplicate consensus keys); (app) the scheduler application's BeginBlock+EndBlock on the mock application state over 1..epochs successive epochs with changing stake, membership, runtimes and parameters. Registries: 1-5 entities with 0-10 nodes, mixed roles, expired/frozen/suspended/ineligible nodes, several runtime versions; escrow exactly at / one below / one above the claim total, ties, 2^63 and 2^67 boundaries, malformed thresholds; MinValidators/MaxValidators/MaxValidatorsPerEntity in -1..100; MaxNodes 0-2, MinPoolSize 0-4, validator-set constraint; fresh entropy per epoch. Every case runs on two replicas. A case is non-trivial when a validator set or a committee was elected; distinct by op list"
+	res.Rule = "two kinds of generated cases: (helper) electValidators / electCommittee / dedupEntityNodesTrivial / stakingAddressMapToSliceByStake / diffValidators / VotingPowerFromStake through the verif exports on arbitrary node lists (any order, duplicate consensus keys); (app) the scheduler application's BeginBlock+EndBlock on the mock application state over 1..epochs successive epochs with changing stake, membership, runtimes and parameters. Registries: 1-5 entities with 0-10 nodes, mixed roles, expired/frozen/suspended/ineligible nodes, several runtime versions; escrow exactly at / one below / one above the claim total, ties, 2^63 and 2^67 boundaries, malformed thresholds; MinValidators/MaxValidators/MaxValidatorsPerEntity in -1..100 (non-positive values injected into state are model-correspondence cases whose count limit the spec does not judge; reachable settings — genesis-valid, then changed only by change-parameters proposals driven through Application.ExecuteMessage incl. 0 and negative values, which must be rejected — are judged against the configured limits); MaxNodes 0-2, MinPoolSize 0-4, validator-set constraint; fresh entropy per epoch. Every case runs on two replicas. A case is non-trivial when a validator set or a committee was elected; distinct by op list"
 	runOne := func(ops []string, caseSeed uint64, minimize bool) []string {
 		d, lines := check(ops)
 		res.Cases++
